@@ -340,3 +340,118 @@ def C14(run):
         "trace_lines_validated_by_TLC": res["lines"], "exhaustive": False},
         ["expected trees and lengths are computed by TLC from the logged bytes with the reference decoder CborLoadRef (tokenisation + grammar)",
          "MC_Decoder shows at model level that the machine stops at the first complete item whatever follows (tokens after the return are never consumed)"])
+
+
+# ---------------------------------------------------------------------------------------------- serialization family
+SER_SRC = ["vh.c", "h_tree.c", "h_gen.c", "h_ser.c"]
+_re_case = re.compile(r"CURRENT-CASE (\w+) idx=(\d+) (\w*) ?([0-9a-f]*)")
+
+
+def _record_simple(run, exe, args, out, what, timeout=1800):
+    rc, err = run_harness(run, exe, args, out, timeout=timeout)
+    if rc != 0:
+        m = _re_case.findall(err)
+        sig = "%s-crash %s" % (what, (m[-1][3][:160] if m else err[-160:]))
+        report_violation(run, sig, "%s: harness ended abnormally (rc=%s): %s" % (what, rc, err[-1500:]), {"args": args, "rc": rc, "stderr": err[-4000:]})
+    return rc
+
+
+def _ser_check(run, judge, flags, counts, what, mc):
+    lib = build_lib(run, "dbg")
+    exe = build_harness(run, lib, "h_ser", SER_SRC)
+    out = run.path("ser.ndjson")
+    open(out, "w").close()
+    for mode, n in counts:
+        part = run.path("ser-%s.ndjson" % mode)
+        _record_simple(run, exe, flags + [mode, str(n)], part, what)
+        with open(out, "ab") as fo, open(part, "rb") as fi:
+            fo.write(fi.read())
+    n = count_lines(out)
+    res = tracecheck(run, "Trace_Serialize", out, boundary=b'{"e":"ser"', env={"VERIF_JUDGE": judge})
+    def sig(ln, r):
+        first = json.loads(r["exec"][0]) if r["exec"] else {}
+        return "%s %s bytes=%s" % (ln.get("e"), ("n=%s" % ln.get("n")) if "n" in ln else "", first.get("bytes", "")[:60] if isinstance(first.get("bytes"), list) else "")
+    _report_rejects(run, res, what, sig)
+    cases, shapes, nontriv = 0, set(), set()
+    with open(out) as f:
+        for l in f:
+            if l.startswith('{"e":"ser"'):
+                cases += 1
+                d = json.loads(l)
+                sh = tuple((x["t"], x["w"], x["def"], x["nc"]) for x in d["tree"])
+                shapes.add(sh)
+                if len(d["tree"]) >= 2:
+                    nontriv.add(sh)
+    return mc, res, out, n, cases, len(shapes), len(nontriv)
+
+
+TREE_RULE = "one case = one item tree: built by seeded random sequences of public construction calls (all builders, all widths, boundary values 0,23,24,255,256,65535,65536,2^32-1,2^32,2^64-1, empty and multi-chunk strings, definite containers with a spare slot, shared sub-items, two 2100-member arrays) or returned by cbor_load on a seeded random well-formed encoding (all argument widths incl. non-minimal); distinct = distinct tree shape (type, width, flavour, child count per node); non-trivial = at least two nodes"
+
+
+def C03(run):
+    q = run.quick()
+    mc = tlc_mc(run, "MC_RoundTrip", "MC_RoundTrip" if q else "MC_RoundTrip_wide", workers=NCPU, timeout=3000)
+    mc, res, out, n, cases, shapes, nontriv = _ser_check(run, "C03", [], [("api", 2500 if q else 40000), ("dec", 2500 if q else 40000)], "serialization / round trip", mc)
+    write_evidence(run, "model_checking", {
+        "states": mc["distinct"], "transitions": mc["generated"], "traces_validated_against_impl": cases - len(res["rejects"]),
+        "samples": _sample_lines(out, 2, lambda l: '"nc":2' in l), "evaluations": cases, "distinct_nontrivial": nontriv, "distinct_shapes": shapes,
+        "rule": TREE_RULE, "trace_lines_validated_by_TLC": res["lines"], "exhaustive": False},
+        ["CborEncode.Encode (transcribed from RFC 8949 section 3, Appendix A/B) is the oracle, evaluated by TLC on each logged tree; MC_RoundTrip checks it against the independently written decoding half of the spec on every tree of a bounded space",
+         "trees are logged through public getters; the reload uses an exactly-sized copy of the serializer's output"])
+
+
+def C07(run):
+    q = run.quick()
+    mc = tlc_mc(run, "MC_RoundTrip", workers=NCPU)
+    mc, res, out, n, cases, shapes, nontriv = _ser_check(run, "C07", ["--sern"], [("api", 700 if q else 12000), ("dec", 500 if q else 12000)], "size / serialize / serialize_alloc agreement", mc)
+    lib = build_lib(run, "dbg")
+    exe = build_harness(run, lib, "h_enc", ["vh.c", "h_enc.c"])
+    eout = run.path("encn.ndjson")
+    _record_simple(run, exe, ["c07"], eout, "encoder buffer contract")
+    eres = tracecheck(run, "Trace_EncDec", eout, boundary=None)
+    _report_rejects(run, eres, "cbor_encode_* buffer contract", lambda ln, r: "encn f=%s a=%s n=%s" % (ln.get("f"), ln.get("a"), ln.get("n")))
+    write_evidence(run, "model_checking", {
+        "states": mc["distinct"], "transitions": mc["generated"], "traces_validated_against_impl": cases - len(res["rejects"]),
+        "samples": _sample_lines(out, 3, lambda l: '"sern"' in l) + _sample_lines(eout, 2),
+        "evaluations": n - cases + eres["lines"], "distinct_nontrivial": nontriv, "distinct_shapes": shapes,
+        "rule": TREE_RULE + "; each tree x every buffer size 0..size+2 (sizes > 48: 10 sizes around 0, size/2, size); every cbor_encode_* x boundary values x buffer sizes 0..10; buffers: sentinel-framed window and an exactly-sized heap block (ASan)",
+        "trace_lines_validated_by_TLC": res["lines"] + eres["lines"], "encoder_lines": eres["lines"], "exhaustive": False},
+        ["the contract ret = (n >= size ? size : 0), nothing outside the first n bytes, alloc buffer of exactly size bytes is judged by TLC on every logged call",
+         "writes outside the window are observed by a sentinel frame and by ASan red zones around an exactly-sized block"])
+
+
+def C10(run):
+    q = run.quick()
+    mc = tlc_mc(run, "MC_EncDec", workers=NCPU)
+    lib = build_lib(run, "dbg")
+    exe = build_harness(run, lib, "h_enc", ["vh.c", "h_enc.c"])
+    out = run.path("enc.ndjson")
+    _record_simple(run, exe, ["c10", run.tier], out, "encoders")
+    n = count_lines(out)
+    res = tracecheck(run, "Trace_EncDec", out, boundary=None)
+    _report_rejects(run, res, "cbor_encode_* / cbor_stream_decode inverse", lambda ln, r: "enc f=%s a=%s" % (ln.get("f"), ln.get("a")))
+    kinds = set()
+    with open(out) as f:
+        for l in f:
+            m = re.search(r'"f":"(\w+)".*?"ret":(\d+)', l)
+            kinds.add(m.groups() if m else l[:30])
+    write_evidence(run, "model_checking", {
+        "states": mc["distinct"], "transitions": mc["generated"], "traces_validated_against_impl": n - len(res["rejects"]),
+        "samples": _sample_lines(out, 2, lambda l: '"uint"' in l and '"ret":5' in l) + _sample_lines(out, 1, lambda l: '"half"' in l),
+        "evaluations": n, "distinct_nontrivial": len(kinds),
+        "rule": "one case = one (encoder, value): all 27 public cbor_encode_* functions; 8-bit domains exhaustive; 16-bit %s; 32/64-bit every 2^k-1, 2^k, 2^k+1, width boundaries and seeded random; all 65,536 halves (quick: every 5th) as half-representable floats, singles/doubles per exponent x boundary mantissa + NaNs; distinct = (encoder, bytes written)" % ("exhaustive" if not q else "every 7th + boundaries"),
+        "trace_lines_validated_by_TLC": res["lines"], "exhaustive": False},
+        ["CborEncode.EncoderBytes is the requirement; MC_EncDec checks it against CborWire on the bounded domain",
+         "the decoder is run on an exactly-sized heap copy of the bytes written"])
+
+
+def C11(run):
+    q = run.quick()
+    mc = tlc_mc(run, "MC_RoundTrip", workers=NCPU)
+    mc, res, out, n, cases, shapes, nontriv = _ser_check(run, "C11", ["--copy"], [("api", 2500 if q else 40000), ("dec", 1500 if q else 30000)], "cbor_copy", mc)
+    write_evidence(run, "model_checking", {
+        "states": mc["distinct"], "transitions": mc["generated"], "traces_validated_against_impl": cases - len(res["rejects"]),
+        "samples": _sample_lines(out, 1, lambda l: '"copy"' in l and '"nc":2' in l), "evaluations": cases, "distinct_nontrivial": nontriv, "distinct_shapes": shapes,
+        "rule": TREE_RULE + "; per tree: copy, compare shape/content/refcounts/bytes, address sets of nodes and buffers, modify and release the copy then re-serialize the source, copy of a copy after releasing the first",
+        "trace_lines_validated_by_TLC": res["lines"], "exhaustive": False},
+        ["equality of shape, refcounts, byte images and address-set disjointness are judged by TLC on logged observations; use-after-free through a shared node or buffer is observed by ASan"])
